@@ -73,6 +73,28 @@ pub fn gen(a: &Args) -> i32 {
                 }
             }
         };
+        // a burst of long values: enough to roll the value log over into new files, flushed and read back (file handles cached)
+        let burst = |r: &mut Rng, out: &mut dyn Write, vctr: &mut u64, st: &mut Stats| {
+            let mut ks = vec![];
+            for _ in 0..r.range(2, 3) {
+                let mut ws = vec![];
+                for k in 0..NK {
+                    if r.chance(2, 3) {
+                        *vctr += 1;
+                        ws.push(format!("{k}={}:{}", *vctr, r.range(500, 900)));
+                        ks.push(k);
+                    }
+                }
+                if !ws.is_empty() {
+                    writeln!(out, "txn {}", ws.join(" ")).unwrap();
+                }
+                writeln!(out, "flush").unwrap();
+            }
+            for k in ks.iter().rev().take(4) {
+                writeln!(out, "get {k}").unwrap();
+            }
+            st.bump("long_value_burst");
+        };
         let n1 = r.range(3, 12);
         phase_ops(&mut r, &mut out, n1, &mut vctr, &mut st);
         let rounds = r.range(1, 2);
@@ -82,6 +104,10 @@ pub fn gen(a: &Args) -> i32 {
             st.bump("checkpoint");
             let n2 = r.range(2, 12);
             phase_ops(&mut r, &mut out, n2, &mut vctr, &mut st);
+            let bursts = vlog == 1 && r.chance(1, 2);
+            if bursts {
+                burst(&mut r, &mut out, &mut vctr, &mut st);
+            }
             if r.chance(1, 3) {
                 writeln!(out, "openckpt").unwrap();
                 st.bump("open_checkpoint_standalone");
@@ -129,6 +155,9 @@ pub fn gen(a: &Args) -> i32 {
                 }
                 let n3 = r.range(1, 6);
                 phase_ops(&mut r, &mut out, n3, &mut vctr, &mut st);
+            }
+            if bursts {
+                burst(&mut r, &mut out, &mut vctr, &mut st);
             }
             if r.chance(2, 3) {
                 writeln!(out, "reopen").unwrap();
